@@ -1,10 +1,10 @@
 CONSTANTS
-  MaxTok = 2
+  MaxTok = 1
   MaxStr = 1
   MaxRunes = 3
   MaxPeek = 1
-  RuneKinds = {"p"}
-  DecMode = "unbuffered"
+  RuneKinds = {"p", "b"}
+  DecMode = "tight"
   LineMode = "tracked"
 SPECIFICATION Spec
 INVARIANT TypeOK
